@@ -33,6 +33,13 @@ class Script(object):
             while self.sim.queue_len(v, n) and self.s.view(n, v):
                 self.s.deliver(v, n)
 
+    def elect_until(self, n, voters_for, tries=4):
+        for _ in range(tries):
+            self.elect(n, voters_for)
+            if self.sim.nodes[n]._SyncObj__raftState == 2:
+                return True
+        return False
+
     def flush(self, a, b, k=None):
         n = 0
         while self.sim.queue_len(a, b) and self.s.view(b, a) and (k is None or n < k):
@@ -430,10 +437,93 @@ def ser_custom(**kw):
     return _ser_mode('custom', **kw)
 
 
+def fig8(**kw):
+    """Raft's figure-8 situation: an entry of an earlier term reaches a majority under a later leader whose own
+    no-op does not; it must not be committed (the later leader of an intermediate term overwrites it)"""
+    sc = Script(base_cfg([1, 2, 3], batch=16, fallback=50), **kw)
+    s = sc.s
+    s.boot()
+    sc.elect(1)
+    sc.settle([1, 2, 3], 2)
+    sc.isolate(1)
+    s.submit(1, size=20)          # X: appended by 1 in term 1 at index 3, replicated nowhere
+    s.tick(1, 11)
+    sc.elect(2, [3])              # 2 leads term 2; its no-op takes index 3 on 2 only
+    sc.isolate(2)
+    # 1 is elected for term 3 by 3 (3 has neither X nor the term-2 no-op)
+    s.connect(1, 3)
+    s.connect(3, 1)
+    sc.elect_until(1, [3])
+    # 3 lacks index 3: it answers the first append_entries with a reset, 1 rolls its next index back
+    sc.flush(1, 3)
+    sc.flush(3, 1)
+    s.tick(1, 11)                 # X goes out in its own (chunked) transmission, the term-3 no-op in a message after it
+    n = sc.sim.queue_len(1, 3)
+    for _ in range(max(0, n - 1)):
+        s.deliver(1, 3)           # everything but the last message: 3 stores X and acknowledges it
+    sc.flush(3, 1)
+    s.tick(1, 11)                 # with the commit rule weakened, X (term 1) is committed and applied here
+    s.drop(1, 3)
+    s.drop(3, 1)
+    s.connect(2, 3)
+    s.connect(3, 2)
+    sc.elect_until(2, [3])        # 2 (last term 2) is more up to date than 3 (last term 1)
+    s.submit(2, size=5)
+    sc.settle([2, 3], 4)
+    sc.join(1)
+    sc.settle([1, 2, 3], 5)
+    return sc.rec
+
+
+def stale_match_reelected(**kw):
+    """a node leads twice; what a follower acknowledged in its first term must not count in the second"""
+    sc = Script(base_cfg([1, 2, 3, 4, 5]), **kw)
+    s = sc.s
+    s.boot()
+    sc.elect(1)
+    sc.settle([1, 2, 3, 4, 5], 2)
+    for a in (1, 2):
+        for b in (3, 4, 5):
+            s.drop(a, b)
+            s.drop(b, a)
+    for _ in range(3):
+        s.submit(1, size=20)
+    s.tick(1, 11)
+    s.tick(1, 11)
+    sc.flush(1, 2)
+    sc.flush(2, 1)                # 1 records what 2 acknowledged in term 1 (a minority: nothing is committed)
+    sc.elect(3, [4, 5])
+    sc.settle([3, 4, 5], 2)
+    s.submit(3, size=20)
+    sc.settle([3, 4, 5], 2)
+    for b in (1, 2):
+        s.connect(3, b)
+        s.connect(b, 3)
+    for _ in range(4):
+        s.tick(3, 11)
+        for b in (1, 2):
+            sc.flush(3, b)
+            sc.flush(b, 3)
+    sc.isolate(3)
+    sc.isolate(2)
+    for b in (4, 5):
+        s.connect(1, b)
+        s.connect(b, 1)
+    sc.elect(1, [4, 5])
+    s.submit(1, size=20)
+    s.tick(1, 11)
+    s.tick(1, 11)
+    sc.flush(1, 4)                # the new entries reach 4 only
+    sc.flush(4, 1)
+    s.tick(1, 11)
+    sc.settle([1, 4, 5], 2)
+    return sc.rec
+
+
 SCENARIOS = {'d7': d7, 'd8': d8, 'd17': d17, 'd16': d16, 'd1': d1, 'd20': d20,
              'snapshot_catchup': snapshot_catchup, 'forwarded': forwarded,
              'restart_double_vote': restart_double_vote, 'd18': d18, 'd10': d10, 'd19': d19, 'd6': d6,
-             'ser_fork': ser_fork, 'ser_custom': ser_custom}
+             'ser_fork': ser_fork, 'ser_custom': ser_custom, 'fig8': fig8, 'stale_match_reelected': stale_match_reelected}
 NAMES = sorted(SCENARIOS)
 
 
